@@ -23,7 +23,7 @@ func init() {
 		ID:          "C17",
 		Rule:        "cases: DID documents within the shipped size limits (0..4 verification methods of the supported types, 1..5 relationships each, JWK and raw-bytes material, 0..2 services, also-known-as): VDR.Create -> the long-form DID is decoded by the harness (strict base64url, reference JCS, reference suffix hash) -> VDR.Read must give an equivalent document, the requested id, the short form as equivalent id and the embedded commitments; 12 repeated creations must give one DID; ProcessOperation's result must resolve to itself. Rejections through DocumentHandler.ResolveDocument: every single-character substitution at every position of a valid DID (4 substitutes per position), re-encodings of the initial state (whitespace, member order, '=' padding, embedded newline, non-canonical trailing bits), suffix swapped with another DID's, short form, and handler/DID namespaces related by prefix (did:io, did:ion, did:ionx, did:ion:x, did:ION). distinct = (document shape, rejection class, position bucket).",
 		Assumptions: []string{"harness base64url / JCS / multihash codec", "did-go document parsing for reading back the resolved document"},
-		Require:     []string{"created", "read-back", "repeat-creations", "single-char-changes", "single-char-insertions", "single-char-deletions", "reencodings", "namespace-pairs", "process-operation"},
+		Require:     []string{"created", "read-back", "repeat-creations", "single-char-changes", "single-char-insertions", "single-char-deletions", "reencodings", "namespace-pairs", "process-operation", "largest-documents-created"},
 		Workers:     func(string) int { return 15 },
 		Run:         runC17,
 	})
@@ -184,6 +184,81 @@ func runC17(r *fw.Runner) {
 	}
 	for b := 0; b < r.N(6, 60); b++ {
 		r.Case("namespaces", func(c *fw.Case) { c17Namespaces(c) })
+	}
+	for b := 0; b < r.N(4, 40); b++ {
+		r.Case("largest-documents", func(c *fw.Case) { c17Largest(c) })
+	}
+}
+
+// c17Largest pads one service endpoint until VDR.Create refuses the document for its size, and demands that every document
+// accepted within the last 64 padding steps below that limit - the largest DIDs the VDR hands out - is read back.
+func c17Largest(c *fw.Case) {
+	r := c.Rng
+	v, err := sidetreelongform.New()
+	if err != nil {
+		c.Failf("vdr-new", nil, "VDR construction failed: %v", err)
+		return
+	}
+	base, keys, shape := c17Doc(r)
+	kt := fw.Pick(r, gen.SigningKeyTypes)
+	upd, rec := gen.NewKey(r, kt), gen.NewKey(r, kt)
+	padChar := fw.Pick(r, []string{"a", "&", "ü"}) // one, six-when-escaped, and two bytes per character
+	mk := func(n int) *docdid.Doc {
+		d := *base
+		d.Service = append(append([]docdid.Service{}, base.Service...), docdid.Service{ID: "pad", Type: "LinkedDomains",
+			ServiceEndpoint: endpoint.NewDIDCommV1Endpoint("https://pad.example.com/" + strings.Repeat(padChar, n))})
+		return &d
+	}
+	accepted := func(n int) (*docdid.DocResolution, bool) {
+		res, err := c17Create(r, v, mk(n), upd, rec)
+		return res, err == nil
+	}
+	if _, ok := accepted(0); !ok {
+		c.Count("largest:base-document-refused", 1)
+		return
+	}
+	lo, hi := 0, 4000 // accepted(lo), !accepted(hi)
+	if _, ok := accepted(hi); ok {
+		c.Inconclusive("no-size-limit-met")
+		return
+	}
+	for hi-lo > 1 {
+		mid := (lo + hi) / 2
+		if _, ok := accepted(mid); ok {
+			lo = mid
+		} else {
+			hi = mid
+		}
+	}
+	c.Sig("largest", shape, kt, padChar)
+	for n := lo; n >= 0 && n > lo-64; n-- {
+		res, ok := accepted(n)
+		if !ok {
+			continue // not monotone for multi-byte padding: skip
+		}
+		did := res.DIDDocument.ID
+		c.Count("largest-documents-created", 1)
+		c.Evals(2)
+		w := map[string]interface{}{"did": did, "did_length": len(did), "padding": n, "largest_accepted_padding": lo, "shape": shape}
+		short, _, req, derr := decodeLongForm(did)
+		if derr != nil {
+			c.Failf("created-did-malformed", w, "created DID is not namespace:suffix:canonical-initial-state (%v)", derr)
+			return
+		}
+		rd, err := v.Read(did)
+		if err != nil {
+			w["err"] = err.Error()
+			c.Failf("read-error:near-size-limit", w, "a DID handed out by VDR.Create (%d characters, %d padding steps below the size limit) is refused by VDR.Read: %v", len(did), lo-n, err)
+			return
+		}
+		sd, _ := req["suffixData"].(map[string]interface{})
+		dl, _ := req["delta"].(map[string]interface{})
+		ks := keys
+		if msg := c17Equivalent(rd, did, short, mk(n), ks, sd, dl); msg != "" {
+			w["problem"] = msg
+			c.Failf("read-back-differs:"+splitColon(msg), w, "resolved document differs from the created one: %s", msg)
+			return
+		}
 	}
 }
 
